@@ -244,3 +244,19 @@ Theorem C17_ct_der_extension_refused : forall (point_ok : list N -> bool) (inp x
    ct_decode point_ok inp = Der.Ok (C1, c3, c2) -> x <> nil -> ct_decode point_ok (inp ++ x) <> Der.Ok v)%N.
 Proof. exact ct_extension_refused. Qed.
 Print Assumptions C17_ct_der_extension_refused.
+
+(* ---- predicates of the tower: true exactly when ALL coefficients agree *)
+Theorem C17_tower_predicates :
+  (forall a b : T2, I2equ a b = true <-> a = b) /\ (forall a b : T4, I4equ a b = true <-> a = b) /\
+  (forall a b : T12, I12equ a b = true <-> a = b) /\
+  (forall a : T2, I2is_zero a = true <-> a = I2zero) /\ (forall a : T2, I2is_one a = true <-> a = I2one) /\
+  (forall a : T4, I4is_zero a = true <-> a = I4zero).
+Proof. exact tower_predicates. Qed.
+Print Assumptions C17_tower_predicates.
+
+(* ---- the shared helper of the four password-encrypted key loaders never writes more than the
+   capacity of any caller's buffer (capacities = source-derived table [info_caller_caps]) *)
+Theorem C17_key_info_copy_within_capacity :
+  Forall (fun cap : N => forall l : N, info_helper_copy cap l <> Der.Fault) info_caller_caps.
+Proof. exact info_copy_within_capacity. Qed.
+Print Assumptions C17_key_info_copy_within_capacity.
